@@ -24,7 +24,7 @@ ASSUMPTIONS = [
 ]
 MUST = ["reconnect_after_failure", "reconnect_after_close", "reconnect_after_peerdrop", "reconnect_after_loop_change",
         "keepalive_reuse", "no_keepalive_closed_after_request", "final_close_zero", "max_one_checked",
-        "queued_caller_cancelled", "concurrent_close_and_requests", "setting_write_histories", "transparent_reconnect_checked", "two_objects_one_endpoint"]
+        "queued_caller_cancelled", "concurrent_close_and_requests", "setting_write_histories", "transparent_reconnect_checked", "two_objects_one_endpoint", "keepalive_option_rejected"]
 EXHAUSTIVE = {"quick": True, "thorough": True}
 
 REQ_CLASSES = {
@@ -450,6 +450,56 @@ def same_endpoint_cases(part):
         part.see(f"same-endpoint|{fam}|{port}")
 
 
+def sockopt_cases(part):
+    """Modbus/TCP with keep-alive on a network stack that rejects a TCP keep-alive option (ENOPROTOOPT) on the first / on every
+    connection: whatever the request's outcome, at most one socket is open at a time and none after close()"""
+    import asyncio
+    import errno as errno_
+    from .. import env, models
+    g = env.goodwe()
+    for pattern in ([errno_.ENOPROTOOPT], [errno_.ENOPROTOOPT] * 40, [0, 0, errno_.ENOPROTOOPT], [errno_.EINVAL, 0, 0, errno_.ENOPROTOOPT]):
+        for R in (0, 2):
+            sim = models.family_sim("ET")
+            obs = {"max": 0}
+
+            async def flow(loop):
+                loop.sockopt_faults = list(pattern)
+                inv = g.ET("inv0", 502, 0, 1, R)
+                inv.set_keep_alive(True)
+                for _ in range(3):
+                    try:
+                        await inv.read_device_info()
+                    except g.InverterError:
+                        pass
+                    await asyncio.sleep(0)
+                    obs["max"] = max(obs["max"], len(loop.live))
+                await inv._protocol.close()
+                await asyncio.sleep(0)
+                await asyncio.sleep(0)
+                obs["end"] = len(loop.live)
+
+            run = engine.run_custom({("inv0", 502): sim}, flow, vtime_cap=600, tx_cap=600)
+            part.evaluations += 1
+            part.count("keepalive_option_rejected")
+            ctx = f"TCP keep-alive, setsockopt pattern {pattern[:4]}{'...' if len(pattern) > 4 else ''}, retries {R}"
+            case = {"sockopt": True}
+            if run.stop or run.error is not None:
+                part.violate("C10/tcp/hang" if run.stop else f"C10/tcp/setup", f"{ctx}: {run.stop or repr(run.error)}", case)
+                continue
+            live, worst = set(), 0
+            for e in run.events:
+                if e[1] == "open":
+                    live.add(e[2])
+                    worst = max(worst, len(live))
+                elif e[1] == "close":
+                    live.discard(e[2])
+            if worst > 1:
+                part.violate("C10/tcp/two-open-sockets", f"{ctx}: {worst} sockets open at the same time", case)
+            if obs.get("end"):
+                part.violate("C10/tcp/open-after-close", f"{ctx}: {obs['end']} socket(s) still open after close()", case)
+            part.see(f"sockopt|{len(pattern)}|{R}")
+
+
 def plan(tier, seed):
     specs = [{"cancel": True}]
     depth = 3 if tier == "quick" else 4
@@ -477,6 +527,7 @@ def run_shard(spec):
             run_concurrent_case(sc, part)
         setting_write_cases(part)
         same_endpoint_cases(part)
+        sockopt_cases(part)
         return part
     for d in range(0, spec["depth"]):
         for rest in itertools.product(ACTIONS, repeat=d):
@@ -492,6 +543,9 @@ def run_shard(spec):
 
 def replay(case):
     part = Part()
+    if case.get("sockopt"):
+        sockopt_cases(part)
+        return [{"key": v["key"], "msg": v["msg"]} for v in part.violations]
     if case.get("same_endpoint"):
         same_endpoint_cases(part)
         return [{"key": v["key"], "msg": v["msg"]} for v in part.violations]
